@@ -66,6 +66,13 @@ func spread(r *core.Rng, s string) string {
 }
 
 func (c15) Generate(r *core.Rng, run int, tier string) *core.History {
+	if run == 0 {
+		// fixed probe: a macro redefined between two uses inside ONE script (recorded finding: delivered in one go,
+		// every definition of the text is registered before any call site is expanded, so the last one wins)
+		return &core.History{Cfg: map[string]int64{"maxdepth": 2000, "splitseed": 1}, Flags: map[string]bool{}, Strs: map[string]string{"probe": "macro-redefined-within-one-script"},
+			Events: []core.Event{{Ev: "stmt", Text: "rm9 = macro(x) { quote(unquote(x) + 1) };"}, {Ev: "stmt", Text: "println(rm9(10));"},
+				{Ev: "stmt", Text: "rm9 = macro(x) { quote(unquote(x) + 2) };"}, {Ev: "stmt", Text: "println(rm9(10))"}}}
+	}
 	flags := gen.SwarmFlags(r.Sub("flags"))
 	flags.Comments = r.Bool(.5)
 	flags.NonDet = false
@@ -260,6 +267,9 @@ func (c15) Execute(h *core.History) *core.Outcome {
 	fail := func(oracle, ctx, detail string) {
 		if o.Viol == nil {
 			o.Viol = &core.Violation{Oracle: oracle, Sig: "C15|" + oracle + "|" + ctx, Detail: detail}
+			if p := h.Strs["probe"]; p != "" {
+				o.Viol.Sig = "C15|probe:" + p
+			}
 		}
 	}
 	// (a) both lexer modes on the complete program
